@@ -56,6 +56,8 @@ TraceTlvNext ==
                                 ELSE {})
                 \cup Sel("DRIFT", IF r.k = "err" /\ exp.k = "err" /\ r.e = exp.e /\ (r.a # exp.a \/ r.b # exp.b)
                                   THEN {<< "DRIFT", "tlv-error-payload", r.e >>} ELSE {})
+                \cup Sel("C05", IF r.k = "err" /\ (r.ecmp = r.einc \/ r.einc # r.inc)
+                                THEN {<< "C05", "is_complete-not-negation-on-error-value", "tlv-item" >>} ELSE {})
                 \cup Sel("C05", IF r.k \in {"ok", "err"} /\ (r.cmp = r.inc \/ (r.k = "ok" /\ r.inc))
                                 THEN {<< "C05", "is_complete-not-negation", "tlv-item" >>} ELSE {})
                 \cup Sel("C16", IF r.k = "ok" /\ (~r.own_eq \/ r.own_t # r.t \/ r.own_v # r.v \/ r.len # RlLen(r.v) \/ r.empty # (r.v = << >>))
@@ -76,6 +78,7 @@ TraceTlvDerived ==
            wrong ==
                IF d.k # "ok" THEN {}
                ELSE (IF \E n \in 1..Len(d.nth) : ~SameItem(d.nth[n], at(n)) THEN {<< "C11", "nth-differs-from-standard-walk", "derived" >>} ELSE {})
+                    \cup (IF \E n \in 1..Len(d.far) : d.far[n].k # "none" THEN {<< "C11", "item-far-past-the-end", "derived" >>} ELSE {})
                     \cup (IF ~sameSeq(d.skip2, SubSeq(W, 3, Len(W))) THEN {<< "C11", "skip-differs-from-standard-walk", "derived" >>} ELSE {})
                     \cup (IF d.count # Len(W) \/ d.folded # Len(W) THEN {<< "C11", "count-differs-from-standard-walk", "derived" >>} ELSE {})
                     \cup (IF ~SameItem(d.last, at(IF Len(W) = 0 THEN 1 ELSE Len(W))) THEN {<< "C11", "last-differs-from-standard-walk", "derived" >>} ELSE {})
